@@ -53,7 +53,8 @@ P_C12(pre, e) ==
          Has(post.ord, o) =>
            Ck("C12", "NoneStranded",
               \/ post.ord[o].status \in {"EXECUTABLE", "COMPLETE"}
-              \/ a.resubmitted                                        \* another attempt is queued
+              \* another attempt is queued - and the order is still part of it
+              \/ (a.resubmitted /\ \E i \in DOMAIN post.pool : o \in SeqToSet(post.pool[i].orders))
               \* a further request for the order is outstanding (e.g. a cancel made after the stream had picked the
               \* asynchronous placement up, before this response): its own handler will move the order on
               \/ (\E i \in DOMAIN post.pool : o \in SeqToSet(post.pool[i].orders) /\ post.ord[o].status = InFlightOf(post.pool[i].kind))
